@@ -57,6 +57,60 @@ Definition xwrap (s : stmt) : res xstmt :=
   | SLabel _ _ => OutFrag
   end.
 
+(* the initialiser of a for statement (In flag off), up to its ';' *)
+Definition for_init (r1 : list token) : res (xfinit * list token) :=
+  match r1 with
+  | [] => Fail
+  | a :: ra =>
+      if ty a =? tt_SemicolonToken then Ok (FNone, r1)
+      else if (ty a =? tt_LetToken) || (ty a =? tt_ConstToken) then OutFrag
+      else if ty a =? tt_VarToken then
+        '(l, r) <~ parse_xvar (S (length ra)) false ra [] ;;
+        match r with
+        | b :: _ =>
+            if ty b =? tt_SemicolonToken then Ok (FVar l, r)
+            else if ((ty b =? tt_InToken) || (ty b =? tt_OfToken)) &&
+                    match l with [(_, None)] => true | _ => false end then OutFrag
+            else Fail
+        | [] => Fail
+        end
+      else
+        '(e, r) <~ parse false prec_OpExpr r1 ;;
+        match r with
+        | b :: _ =>
+            if ty b =? tt_SemicolonToken then Ok (FExpr e, r)
+            else if (ty b =? tt_InToken) || (ty b =? tt_OfToken) then OutFrag
+            else Fail
+        | [] => Fail
+        end
+  end.
+
+(* an optional expression in front of the token t *)
+Definition for_opt (t : Z) (r : list token) : res (option expr * list token) :=
+  match r with
+  | a :: _ => if ty a =? t then Ok (None, r) else '(e, r') <~ parse true prec_OpExpr r ;; Ok (Some e, r')
+  | [] => Fail
+  end.
+
+(* the for arm of parseStmt after the `for`; pstmt / plist: parseStmt and parseStmtList (after its '{') *)
+Definition for_arm (pstmt : list token -> res (xstmt * list token)) (plist : list token -> res (list xstmt * list token))
+  (rest : list token) : res (xstmt * list token) :=
+  r1 <~ expect tt_OpenParenToken rest ;;
+  '(i, r2) <~ for_init r1 ;;
+  r3 <~ expect tt_SemicolonToken r2 ;;
+  '(c, r4) <~ for_opt tt_SemicolonToken r3 ;;
+  r5 <~ expect tt_SemicolonToken r4 ;;
+  '(p, r6) <~ for_opt tt_CloseParenToken r5 ;;
+  r7 <~ expect tt_CloseParenToken r6 ;;
+  '(l, r8) <~ match r7 with
+             | a :: ra =>
+                 if ty a =? tt_OpenBraceToken then plist ra
+                 else if ty a =? tt_SemicolonToken then Ok ([], ra)
+                 else '(s, r) <~ pstmt r7 ;; Ok ([s], r)
+             | [] => '(s, r) <~ pstmt r7 ;; Ok ([s], r)
+             end ;;
+  Ok (XFor i c p l, skip_semi false r8).
+
 Fixpoint parse_xstmt (n : nat) (w2f : bool) (ts : list token) {struct n} : res (xstmt * list token) :=
   match n with
   | O => NoFuel
@@ -87,55 +141,7 @@ Fixpoint parse_xstmt (n : nat) (w2f : bool) (ts : list token) {struct n} : res (
         '(s, r4) <~ parse_xstmt m w2f r3 ;;
         if w2f then Ok (XFor FNone (Some c) None (match s with XBlock l => l | _ => [s] end), skip_semi false r4)
         else Ok (XWhile c s, skip_semi false r4)
-      else if ty k =? tt_ForToken then
-        r1 <~ expect tt_OpenParenToken rest ;;
-        (* the initialiser, with the In flag off *)
-        '(i, r2) <~ match r1 with
-                   | [] => Fail
-                   | a :: ra =>
-                       if ty a =? tt_SemicolonToken then Ok (FNone, r1)
-                       else if (ty a =? tt_LetToken) || (ty a =? tt_ConstToken) then OutFrag
-                       else if ty a =? tt_VarToken then
-                         '(l, r) <~ parse_xvar (S (length ra)) false ra [] ;;
-                         match r with
-                         | b :: _ =>
-                             if ty b =? tt_SemicolonToken then Ok (FVar l, r)
-                             else if ((ty b =? tt_InToken) || (ty b =? tt_OfToken)) &&
-                                     match l with [(_, None)] => true | _ => false end then OutFrag
-                             else Fail
-                         | [] => Fail
-                         end
-                       else
-                         '(e, r) <~ parse false prec_OpExpr r1 ;;
-                         match r with
-                         | b :: _ =>
-                             if ty b =? tt_SemicolonToken then Ok (FExpr e, r)
-                             else if (ty b =? tt_InToken) || (ty b =? tt_OfToken) then OutFrag
-                             else Fail
-                         | [] => Fail
-                         end
-                   end ;;
-        r3 <~ expect tt_SemicolonToken r2 ;;
-        '(c, r4) <~ match r3 with
-                   | a :: _ => if ty a =? tt_SemicolonToken then Ok (None, r3)
-                               else '(e, r) <~ parse true prec_OpExpr r3 ;; Ok (Some e, r)
-                   | [] => Fail
-                   end ;;
-        r5 <~ expect tt_SemicolonToken r4 ;;
-        '(p, r6) <~ match r5 with
-                   | a :: _ => if ty a =? tt_CloseParenToken then Ok (None, r5)
-                               else '(e, r) <~ parse true prec_OpExpr r5 ;; Ok (Some e, r)
-                   | [] => Fail
-                   end ;;
-        r7 <~ expect tt_CloseParenToken r6 ;;
-        '(l, r8) <~ match r7 with
-                   | a :: ra =>
-                       if ty a =? tt_OpenBraceToken then parse_xlist m w2f ra []
-                       else if ty a =? tt_SemicolonToken then Ok ([], ra)
-                       else '(s, r) <~ parse_xstmt m w2f r7 ;; Ok ([s], r)
-                   | [] => '(s, r) <~ parse_xstmt m w2f r7 ;; Ok ([s], r)
-                   end ;;
-        Ok (XFor i c p l, skip_semi false r8)
+      else if ty k =? tt_ForToken then for_arm (parse_xstmt m w2f) (fun ts' => parse_xlist m w2f ts' []) rest
       else if ty k =? tt_DoToken then
         '(s, r1) <~ parse_xstmt m w2f rest ;;
         r2 <~ expect tt_WhileToken r1 ;;
